@@ -127,6 +127,7 @@ type VC struct {
 	strConst map[string]string
 	f64Const map[string]string
 	hasPreds map[string]types.Type
+	atPreds  map[string]types.Type
 	idTypes  map[int]types.Type
 	typeIDs  map[string]int
 	ufDecl   map[string]bool
@@ -363,7 +364,8 @@ func (vc *VC) rangeFact(term string, l Leaf, h Heap) string {
 					and(eq("(dyntype (p_obj "+term+"))", num(int64(id))), eq("(p_slot "+term+")", "0"), eq("(p_idx "+term+")", "0"))))
 			} else if n, isN := pt.Elem().(*types.Named); isN {
 				if _, isS := n.Underlying().(*types.Struct); isS && n.TypeArgs().Len() == 0 {
-					f = and(f, implies(not(eq("(p_obj "+term+")", "0")), "("+vc.hasPred(n)+" (dyntype (p_obj "+term+")))"))
+					f = and(f, implies(not(eq("(p_obj "+term+")", "0")), and("("+vc.hasPred(n)+" (dyntype (p_obj "+term+")))",
+						"("+vc.atPred(n)+" (dyntype (p_obj "+term+")) (p_slot "+term+"))")))
 				}
 			}
 		}
